@@ -29,6 +29,8 @@ import (
 	"github.com/octohelm/gengo/pkg/gengo"
 	"github.com/octohelm/gengo/pkg/gengo/snippet"
 	"verif/mc/core"
+	clamodel "verif/mc/pipe/cla/model"
+	clbmodel "verif/mc/pipe/clb/model"
 )
 
 // ---------------------------------------------------------------- trees
@@ -336,6 +338,12 @@ func (in *inst) alias(gen string, c gengo.Context, al *types.Alias) error {
 	return in.perform(c, gen, *s.Alias, typ)
 }
 
+// Holder is rendered by the vm generator.
+type Holder struct {
+	PA *clamodel.A
+	PB *clbmodel.B
+}
+
 // Generator types: names are constants because gengo instantiates a zero
 // value of the type for every package when there is no custom New.
 type (
@@ -367,7 +375,11 @@ func (*VM) Name() string { return "vm" }
 
 func (g *VM) GenerateType(c gengo.Context, n *types.Named) error {
 	name := n.Obj().Name()
-	c.RenderT("var M_@Type = @val\nvar S_@Type = @set\nvar A_@Type = @a + @b + @c + @d\n", snippet.Args{
+	c.RenderT("var M_@Type = @val\nvar S_@Type = @set\nvar H_@Type = @holders\nvar A_@Type = @a + @b + @c + @d\n", snippet.Args{
+		// entries mention types of two packages with a clashing last segment, each entry only one of them
+		"holders": snippet.Value(map[string]Holder{
+			"k1": {PA: &clamodel.A{X: 1}}, "k2": {PB: &clbmodel.B{Y: 2}}, "k3": {PA: &clamodel.A{X: 3}}, "k0": {PB: &clbmodel.B{Y: 4}},
+		}),
 		"Type": snippet.Block(name),
 		"val":  snippet.Value(map[string]int{"z": 1, "a": 2, "m": 3, "b": 4, "y": 5}),
 		"set":  snippet.Value(map[int]bool{3: true, 1: false, 2: true}),
